@@ -42,7 +42,8 @@ def run_wire(ctx, scenarios, name, par=16, slow=False, timeout=1200):
     return tp, index, stats
 
 
-def tlc_validate(ctx, trace_path, module="TraceBroker", invariants=("IdsDistinct", "SubsKeyed"), stopat=0, timeout=900, deviation=()):
+def tlc_validate(ctx, trace_path, module="TraceBroker", invariants=("IdsDistinct", "SubsKeyed"), stopat=0, timeout=900, deviation=(),
+                 count=False):
     """returns (accepted, hwm, tlc_result)"""
     body = "mc_SysLevels == %s\n" % vlib.tla_set([vlib.tla_str(s) for s in SYS_LEVELS])
     inv = list(invariants)
@@ -61,7 +62,7 @@ def tlc_validate(ctx, trace_path, module="TraceBroker", invariants=("IdsDistinct
     def keep(line):
         return "TRACE-REJECTED-AT" in line
     res = ctx.tlc(module, body, cfg, name=module, workers=1, timeout=timeout, env=env, keep_lines=keep,
-                  java_opts=["-Dtlc2.tool.queue.IStateQueue=StateDeque"], count=False)
+                  java_opts=["-Dtlc2.tool.queue.IStateQueue=StateDeque"], count=count)
     hwm = None
     for line in res.kept:
         m = re.search(r'"TRACE-REJECTED-AT", (\d+), "OF", (\d+)', line)
@@ -144,6 +145,9 @@ def _validate_once(ctx, scenarios, name, module, invariants, par, max_reject, jv
     stats["validated"] = nvalid
     stats["rejected"] = len(rejected)
     stats["unexamined"] = unexamined
+    if scenarios and not reuse:
+        ctx.sample({"scenario": scenarios[0]["id"], "cfg": scenarios[0].get("cfg"), "first_steps": scenarios[0]["steps"][:8],
+                    "first_events": lines[index[0]["from"] - 1: index[0]["from"] + 5]})
     return rejected, stats, tp, index, lines, by_id
 
 
@@ -157,7 +161,8 @@ def _validate_part(ctx, todo, lines, by_id, name, module, invariants, max_reject
         with open(cur_trace, "w") as fh:
             for e in todo:
                 fh.write("\n".join(lines[e["from"] - 1: e["to"]]) + "\n")
-        acc, hwm, res = tlc_validate(ctx, cur_trace, module=module, invariants=invariants, deviation=list(devs))
+        # the states TLC visits while explaining the recorded traces are states of the specification: counted
+        acc, hwm, res = tlc_validate(ctx, cur_trace, module=module, invariants=invariants, deviation=list(devs), count=True)
         if acc:
             nvalid += len(todo)
             todo = []
